@@ -65,6 +65,12 @@ func (sc *srvScen) tokenGrid(other *srvScen) {
 		}
 		age := time.Duration(sc.now - issuedAt)
 		for use := 0; use < 4 && !sc.dead; use++ {
+			if use > 0 && r.Intn(3) == 0 {
+				// the same token is presented again later (a token that checked out once says nothing about now)
+				sc.advance([]time.Duration{sec, 61 * sec, 299 * sec, 301 * sec}[r.Intn(4)])
+				age = time.Duration(sc.now - issuedAt)
+				sc.r.hist("token-use/again-after-a-pause")
+			}
 			variant := r.Intn(9)
 			from := src
 			t := tok
